@@ -266,7 +266,7 @@ PROPS = {
     "C04": {
         "level": "proof",
         "level_prefix": "Partial proof -- contracts discharged without bound on the mechanisms named below, not the whole statement (bounded stand-ins and what is left out are listed): ",
-        "units": ["nameorder", "nsec3order", "rdbin", "rdnames", "namehash"],
+        "units": ["nameorder", "nsec3order", "rdbin", "rdnames", "namehash", "charstr"],
         "vx_search": {"bin": "c04_search_small_values", "crate": "replay", "release": True,
                       "what": "about 15000 pairs/triples of small names (57 names of up to two labels over a,A,b,[,NUL,ab,aB) and of small "
                               "Nsec, Nsec3, Nsec3param, Rrsig, Dnskey, Ds, Zonemd, Svcb, Mx, Srv and unknown record data values, checked "
@@ -359,7 +359,8 @@ PROPS = {
                        "and A data.",
         "not_covered": "The relative-name versions of the comparison methods "
                        "(ToRelativeName), the iterators themselves (iter_labels/as_flat_slice of Name, ParsedName, Chain are assumed "
-                       "to enumerate labels() -- ParsedName's iterator is under contract in C01's unit nameparse), CharStr, canonical "
+                       "to enumerate labels() -- ParsedName's iterator is under contract in C01's unit nameparse), CharStr's PartialOrd / Ord / Hash (iterator adapters: assumed in unit charstr, bounded Kani harness on the "
+                       "compiled code; its ==, canonical_cmp, 255-octet invariant, parse and compose are under contract, as is HINFO), canonical "
                        "ordering of record data of the other types versus canonical wire form (macro-generated per type), Eq/Ord/Hash of Record beyond "
                        "the Kani harness (generic operator calls), Question.",
         "assumptions": [
@@ -812,7 +813,7 @@ PROPS = {
     "C05": {
         "level": "proof",
         "level_prefix": "Partial proof -- contracts discharged without bound on the mechanisms named below, not the whole statement (bounded stand-ins and what is left out are listed): ",
-        "units": ["rtypebitmap", "tsig", "rdcompose", "rdparse", "rdbin", "rdnames"],
+        "units": ["rtypebitmap", "tsig", "rdcompose", "rdparse", "rdbin", "rdnames", "charstr"],
         "extra_searches": [
             {"bin": "c05_search_opt_options", "crate": "replay", "release": True,
              "what": "OPT options: every option code 0..=20 and 65001 with every payload of at most 4 octets over six octet values, client subnets of "
